@@ -56,19 +56,38 @@ Theorem C11_empty : forall (S : Type) (fn : S -> nat -> nat -> Z -> (nat * optio
   let '((n, e), st') := fn st 0 0 off in ((CRet n e, [mkcall 0 0 off n e]), st').
 Proof. intros. unfold chunk. cbn. destruct (fn st 0 0 off) as [[n e] st']. reflexivity. Qed.
 
-(** WriteAt, any backend answers: the file holds exactly p[:n] at off (and is otherwise
-    unchanged), n <= len p, the requests have the shape above, and an error is that of the last
-    request, which stored nothing. *)
+(** What is assumed of the backend (stated as hypotheses / tape shapes, never as axioms): one Twrite answers a
+    count k <= len(chunk) and has stored exactly the first k bytes of the chunk at the chunk's offset, or answers an
+    error; [stores_nothing_on_error]: a Twrite that answers an error has stored nothing.  One Tread answers at most
+    the bytes asked for, taken from the file at the offset, or an error.  A reply reporting MORE than was asked
+    is outside the property (the generic theorem keeps Go's panic for it). *)
+
+(** WriteAt when no failing Twrite stores anything: the file holds exactly p[:n] at off (and is otherwise
+    unchanged), n <= len p, the requests have the shape above. *)
 Theorem C11_write : forall p cs off0 f0 tape,
   1 <= cs -> (0 <= off0)%Z -> (off0 + Z.of_nat (length p) < 9223372036854775808)%Z -> 0 < length p ->
+  stores_nothing_on_error tape ->
   exists n e calls st',
     write_at cs p off0 f0 tape = ((CRet n e, calls), st') /\
     chunks_ok cs (length p) off0 0 calls n e /\
     n <= length p /\
-    rf_eq (ws_file st') (rf_store f0 off0 (firstn n p)) /\
+    rf_eq (ws_file st') (rf_store f0 off0 (firstn n p)).
+Proof. intros p cs off0 f0 tape Hcs Hlo Hhi. exact (write_at_clean p cs off0 f0 Hcs Hlo Hhi tape). Qed.
+Print Assumptions C11_write.
+
+(** WriteAt, ANY backend answers, including a Twrite that stores k bytes of its chunk and then fails (the client
+    sees only the error: Rlerror carries no count): the file holds exactly p[:x] at off with n <= x <= len p, and
+    x = n unless that happened; an error is that of the last request, for which the caller is told count 0. *)
+Theorem C11_write_general : forall p cs off0 f0 tape,
+  1 <= cs -> (0 <= off0)%Z -> (off0 + Z.of_nat (length p) < 9223372036854775808)%Z -> 0 < length p ->
+  exists n e calls st',
+    write_at cs p off0 f0 tape = ((CRet n e, calls), st') /\
+    chunks_ok cs (length p) off0 0 calls n e /\
+    (exists x, n <= x <= length p /\ rf_eq (ws_file st') (rf_store f0 off0 (firstn x p)) /\
+               (ws_failed st' = false -> x = n)) /\
     (forall err, e = Some err -> c_n (last calls (mkcall 0 0 0 0 None)) = 0).
 Proof. intros p cs off0 f0 tape Hcs Hlo Hhi. exact (write_at_spec p cs off0 f0 Hcs Hlo Hhi tape). Qed.
-Print Assumptions C11_write.
+Print Assumptions C11_write_general.
 
 (** WriteAt when the backend accepts everything: (len p, nil) and file = splice file off p *)
 Theorem C11_write_all : forall p cs off0 f0 tape,
@@ -118,6 +137,12 @@ Example C11_ex_write :
   let '((out, calls), st) := write_at 2 [1;2;3;4;5]%N 8589934592 (rf_of_list [9;9]%N) [WCount 2; WCount 1] in
   out = CRet 3 None /\ map c_len calls = [2; 2] /\ rf_size (ws_file st) = 8589934595%Z /\
   rf_get (ws_file st) 8589934594 = 3%N /\ rf_get (ws_file st) 1 = 9%N /\ rf_get (ws_file st) 5 = 0%N.
+Proof. vm_compute. repeat split. Qed.
+
+(** a Twrite that stores one byte of its chunk and fails: the caller is told 2, the file holds 3 bytes *)
+Example C11_ex_write_stored :
+  let '((out, calls), st) := write_at 2 [1;2;3;4;5]%N 0 (rf_of_list []) [WCount 2; WErrStored 1 (CErrno 28)] in
+  out = CRet 2 (Some (CErrno 28)) /\ rf_size (ws_file st) = 3%Z /\ rf_get (ws_file st) 2 = 3%N /\ ws_failed st = true.
 Proof. vm_compute. repeat split. Qed.
 
 Example C11_ex_read :
